@@ -208,7 +208,7 @@ inductive UnOp where
   deriving DecidableEq, Repr
 
 inductive BinOp where
-  | add | sub | mul | div | mod | eq | ne | lt | le | gt | ge | and | or
+  | add | sub | mul | div | mod | eq | ne | lt | le | gt | ge | and | or | xor | inList | coalesce
   deriving DecidableEq, Repr
 
 inductive E where
@@ -260,7 +260,7 @@ def vLt (a b : V) : R V :=
 def vNot : V → R V
   | .null => .ok .null
   | .bool b => .ok (.bool !b)
-  | _ => .error .type
+  | _ => .error .unsup
 
 /-- integer results outside `i64` are outside the model (the engine's arithmetic overflows) -/
 def inI64 (i : Int) : R V :=
@@ -293,7 +293,7 @@ def vAnd (a b : V) : R V :=
   | .bool true, .null => .ok .null
   | .null, .bool true => .ok .null
   | .null, .null => .ok .null
-  | _, _ => .error .type
+  | _, _ => .error .unsup
 
 def vOr (a b : V) : R V :=
   match a, b with
@@ -305,7 +305,30 @@ def vOr (a b : V) : R V :=
   | .bool false, .null => .ok .null
   | .null, .bool false => .ok .null
   | .null, .null => .ok .null
-  | _, _ => .error .type
+  | _, _ => .error .unsup
+
+/-- XOR in three-valued logic: unknown as soon as one side is -/
+def vXor (a b : V) : R V :=
+  match a, b with
+  | .bool x, .bool y => .ok (.bool (x != y))
+  | .null, .bool _ => .ok .null
+  | .bool _, .null => .ok .null
+  | .null, .null => .ok .null
+  | _, _ => .error .unsup
+
+/-- `a IN l` in three-valued logic: true if some element equals `a`; otherwise null if some
+comparison was unknown (a null on either side); otherwise false.  `x IN []` is false. -/
+def vInAcc (a : V) : V → Bool → R V
+  | .cons h t, unknown => do
+    let e ← vEq a h
+    if e = .bool true then pure (.bool true)
+    else vInAcc a t (unknown || e = .null)
+  | _, unknown => pure (if unknown then .null else .bool false)
+
+def vIn (a l : V) : R V :=
+  if l = .null then .ok .null
+  else if l.isList then vInAcc a l false
+  else .error .unsup
 
 def binop (op : BinOp) (a b : V) : R V :=
   match op with
@@ -317,6 +340,9 @@ def binop (op : BinOp) (a b : V) : R V :=
   | .ge => do vNot (← vLt a b)
   | .and => vAnd a b
   | .or => vOr a b
+  | .xor => vXor a b
+  | .inList => vIn a b
+  | .coalesce => .ok (if a = .null then b else a)
   | _ => arith op a b
 
 def unop (op : UnOp) (a : V) : R V :=
@@ -324,7 +350,7 @@ def unop (op : UnOp) (a : V) : R V :=
   | .not => vNot a
   | .neg => match a with
     | .null => .ok .null
-    | .int x => .ok (.int (-x))
+    | .int x => inI64 (-x)
     | _ => .error .unsup
   | .isNull => .ok (.bool (a = .null))
   | .isNotNull => .ok (.bool (a ≠ .null))
@@ -393,7 +419,9 @@ def eval (g : G) (ps : Props) (row : Row) : E → R V
     binop op av bv
   | .ite c t e => do
     let cv ← eval g ps row c
-    if cv = .bool true then eval g ps row t else eval g ps row e
+    if cv = .bool true then eval g ps row t
+    else if cv = .bool false || cv = .null then eval g ps row e
+    else .error .unsup
   | .idx a i => do
     let av ← eval g ps row a
     let iv ← eval g ps row i
@@ -422,6 +450,32 @@ def substE (ps : Props) : E → E
   | .ite c t e => .ite (substE ps c) (substE ps t) (substE ps e)
   | .idx a i => .idx (substE ps a) (substE ps i)
   | .comp x l f m => .comp x (substE ps l) (substE ps f) (substE ps m)
+  | e => e
+
+/-- how the seeded rewrite C35-a reads a constant operand of AND / OR: a `null` literal is
+taken for `false` — right for the top level of a WHERE only -/
+def truthLit : E → Option Bool
+  | .lit (.bool b) => some b
+  | .lit .null => some false
+  | _ => none
+
+/-- constant folding of one AND / OR node as in the seeded change C35-a (kept as a
+counter-model: `C35_fold_null_as_false_unsound`) -/
+def foldConn : E → E
+  | .bin .or a b =>
+    match truthLit a, truthLit b with
+    | some true, _ => .lit (.bool true)
+    | _, some true => .lit (.bool true)
+    | some false, _ => b
+    | _, some false => a
+    | _, _ => .bin .or a b
+  | .bin .and a b =>
+    match truthLit a, truthLit b with
+    | some false, _ => .lit (.bool false)
+    | _, some false => .lit (.bool false)
+    | some true, _ => b
+    | _, some true => a
+    | _, _ => .bin .and a b
   | e => e
 
 /-- does the expression mention a parameter that `ps` does not supply?  (the engine's
@@ -675,7 +729,9 @@ def readRows (g : G) (ps : Props) (c : Clause) (row : Row) : R (List Row) :=
       | _, _ => none))
   | .filter e => do
     let v ← eval g ps row e
-    pure (if v = .bool true then [row] else [])
+    if v = .bool true then pure [row]
+    else if v = .bool false || v = .null then pure []
+    else .error .unsup
   | .withC keep items => do
     let kept : Row := keep.filterMap (fun x => (row.get x).map (fun b => (x, b)))
     let vals ← mapR (fun (xe : Nat × E) => do pure (xe.1, B.val (← eval g ps row xe.2))) items
